@@ -112,6 +112,37 @@ func forwarded(u *ssa.UnOp) ssa.Value {
 	}
 	var stores []*ssa.Store
 	switch a := u.X.(type) {
+	case *ssa.IndexAddr:
+		// x[i] = v; … x[i] …  in one block, x a slice made in this function, same index value, nothing in between
+		// that stores into x or calls out with x
+		if _, ok := a.X.(*ssa.MakeSlice); !ok {
+			return nil
+		}
+		instrs := u.Block().Instrs
+		pos := -1
+		for i, in := range instrs {
+			if in == ssa.Instruction(u) {
+				pos = i
+			}
+		}
+		for i := pos - 1; i >= 0; i-- {
+			switch in := instrs[i].(type) {
+			case *ssa.Store:
+				if ia, ok := in.Addr.(*ssa.IndexAddr); ok && ia.X == a.X {
+					if ia.Index == a.Index {
+						return in.Val
+					}
+					return nil
+				}
+			case ssa.CallInstruction:
+				for _, arg := range in.Common().Args {
+					if arg == a.X {
+						return nil
+					}
+				}
+			}
+		}
+		return nil
 	case *ssa.FieldAddr:
 		al, ok := a.X.(*ssa.Alloc)
 		if !ok {
@@ -1149,6 +1180,9 @@ func (e *Env) decode0(c ssa.Value, truth bool, why string) []Fact {
 		}
 		return []Fact{{Atom: "call:" + name + "(" + e.termList(args) + ")", Pos: truth, Why: why, Call: b, Env: e}}
 	case *ssa.Extract:
+		if call, ok := b.Tuple.(*ssa.Call); ok {
+			return []Fact{{Atom: "cond:" + e.Term(c), Pos: truth, Why: why, Call: call, Env: e}}
+		}
 		return []Fact{lit("cond:"+e.Term(c), truth, why)}
 	}
 	return []Fact{lit("cond:"+e.Term(c), truth, why)}
